@@ -18,7 +18,8 @@ TECHNIQUE = ('fault enumeration over generated histories: Hypothesis generates a
              'caller, _check() and an independent structure walk pass, contents are exactly the previous ones or '
              'the completed change (per element for bulk operations), a follow-up workload agrees with the '
              'reference model and (C) every key / value reference count equals the number of slots holding the '
-             'object; the C side runs under ASan/UBSan with asserts enabled')
+             'object; the C side runs under ASan/UBSan with asserts enabled; '
+             'every conflict-merge triple over a 3-key universe (thorough: 4) with every comparison failed in turn')
 RULE = ('a case is a configuration + build history + probe list; every (probe, n) pair is one fault injection.  '
         'evaluations = fault injections executed (+1 per case for the fault-free counting pass).  Non-trivial '
         'injection: the probe mutates, or n >= 2 (the fault fell after at least one successful comparison), on a '
